@@ -44,7 +44,9 @@ LEVEL_TEXT = ("Generated histories over a mixed writer pool compared with a "
 
 KINDS = ["recorder", "path", "bytesio", "stringio", "textfile", "path"]
 TEXTS = ["G1 X1", "G1 X1   ", "M3 S100 ; spindle", "; ümlaut ✓ 文字", "(msg, héllo)\t ",
-         "G0 Z5", "", "   ", "; a", "T1 M6"]
+         "G0 Z5", "", "   ", "; a", "T1 M6",
+         # unicode line boundaries other than CR/LF must stay inside the one line
+         "; tool\u2028M112 now", "; a\x0bb\x0cc", "; x\x85y", "; p\x1cq\x1dr\x1es", "; para\u2029graph"]
 
 
 class Pool:
